@@ -541,13 +541,16 @@ func (c *Ctx) atCallAsserts(fr *Frame, st *State, site ssa.Instruction, callee *
 // signature (callee.self is the receiver).
 func (c *Ctx) atInvokeAsserts(fr *Frame, st *State, site ssa.Instruction, recv *Val, m *types.Func, args []*Val) {
 	top := c.topFrame
-	if top == nil || top.con == nil || c.pure > 0 || c.dry > 0 {
+	if top == nil || top.con == nil || c.pure > 0 {
 		return
 	}
 	full := "(" + typeName(recv.T) + ")." + m.Name()
 	short := "(" + strings.TrimPrefix(typeName(recv.T), rootPkg+".") + ")." + m.Name()
 	for _, a := range top.con.Asserts {
-		if a.Effect != nil || (a.Where != "call "+full && a.Where != "call "+short) {
+		if a.Where != "call "+full && a.Where != "call "+short {
+			continue
+		}
+		if a.Effect == nil && c.dry > 0 {
 			continue
 		}
 		env := &Env{c: c, fr: top, fn: top.fn, st: st, old: top.old, vars: map[string]*Val{}, fd: top.fd, cells: fr == top}
@@ -563,6 +566,11 @@ func (c *Ctx) atInvokeAsserts(fr *Frame, st *State, site ssa.Instruction, recv *
 				env.vars["callee."+nm] = args[i]
 			}
 			env.vars[fmt.Sprintf("callee.a%d", i)] = args[i]
+		}
+		if a.Effect != nil {
+			c.applyEffect(env, st, a.Effect)
+			c.atCallSeen[a] = true
+			continue
 		}
 		g := env.evalTop(a.Clause)
 		c.oblige("assert", fmt.Sprintf("%s#at-call[%s].assert[%s]", c.relName(top.fn), short, lbl(a.Clause)), a.Clause.Label, a.Clause.Props, g.Term, site.Pos(), a.Clause.Src)
@@ -688,7 +696,17 @@ func (c *Ctx) invoke(fr *Frame, st *State, site ssa.Instruction, recv *Val, m *t
 	}
 	// only logg's own interfaces and io.Writer are dispatched; fmt.Stringer, error, ... carry user values
 	if tn := typeName(it); !(tn == rootPkg+".LogWriter" || tn == rootPkg+".LevelSettable" || tn == "io.Writer" || tn == rootPkg+".ObjectSerializer") {
-		cands = nil
+		extra := false
+		if top := c.topFrame; top != nil && top.con != nil {
+			for _, n := range top.con.DispatchIfaces {
+				if tn == rootPkg+"."+n {
+					extra = true
+				}
+			}
+		}
+		if !extra {
+			cands = nil
+		}
 	}
 	if len(cands) == 0 || c.dry > 0 {
 		return c.invokeExternal(fr, st, site, recv, m, args, rt)
@@ -709,7 +727,14 @@ func (c *Ctx) invoke(fr *Frame, st *State, site ssa.Instruction, recv *Val, m *t
 			c.assumed["typed nil "+typeName(cd.recvT)+" never occurs inside an interface value (its own methods would panic)"] = true
 			c.assume(not(eq(self.Term, "0")))
 		}
-		r, ex := c.contractCall(fr, bst, site, cd.fn, cd.con, append([]*Val{self}, args...), rt)
+		var r *Val
+		var ex []*exitInfo
+		if cd.con != nil {
+			r, ex = c.contractCall(fr, bst, site, cd.fn, cd.con, append([]*Val{self}, args...), rt)
+		} else {
+			// a method promoted from an embedded field: the compiler-generated wrapper is transparent
+			r, ex = c.staticCall(fr, bst, site, cd.fn, append([]*Val{self}, args...), rt)
+		}
 		exits = append(exits, ex...)
 		if c.curReach != "false" {
 			sts = append(sts, bst)
@@ -805,6 +830,40 @@ func (P *Program) implementers(it types.Type, method string) []implCand {
 			out = append(out, implCand{recvT: rt, fn: fn, con: con})
 		}
 	}
+	// types of the root package that get the method by embedding a type whose method is under contract
+	if rp := P.Pkgs[rootPkg]; rp != nil {
+		var names []string
+		for n := range rp.Members {
+			names = append(names, n)
+		}
+		sort.Strings(names)
+		for _, n := range names {
+			tn, ok := rp.Members[n].(*ssa.Type)
+			if !ok {
+				continue
+			}
+			for _, rt := range []types.Type{tn.Type(), types.NewPointer(tn.Type())} {
+				if _, isIface := rt.Underlying().(*types.Interface); isIface || !types.Implements(rt, iface) {
+					continue
+				}
+				sel := P.Prog.MethodSets.MethodSet(rt).Lookup(rp.Pkg, method)
+				if sel == nil || len(sel.Index()) < 2 {
+					continue // declared directly on the type: handled above (or not under contract)
+				}
+				target := sel.Obj().(*types.Func)
+				tf := P.Prog.FuncValue(target)
+				if tf == nil {
+					continue
+				}
+				if tc := P.Contracts[P.fnKey(tf)]; tc == nil || tc.External || tc.Inline {
+					continue
+				}
+				if w := P.Prog.MethodValue(sel); w != nil {
+					out = append(out, implCand{recvT: rt, fn: w, con: nil})
+				}
+			}
+		}
+	}
 	P.implCache[key] = out
 	return out
 }
@@ -855,6 +914,9 @@ func (c *Ctx) extContractCall(fr *Frame, st *State, site ssa.Instruction, con *C
 	for _, en := range con.Ensures {
 		g := post.evalTop(en)
 		c.assume(g.Term)
+	}
+	for _, pe := range con.PostEffects {
+		c.applyEffect(&post, st, pe)
 	}
 	return res, nil
 }
